@@ -44,7 +44,7 @@ class Ctx:
                           # the state the property itself speaks about: what is retained (C08: texts and exponents;
                           # C19: everything that grows), the SMP state machine (C11, C12), the fragment context (C14)
                           "C08": {"rsq", "pend", "cur", "prev", "ax"}, "C19": {"rsq", "pend", "ctrs", "macs", "frag"},
-                          "C11": {"smp"}, "C12": {"smp"}, "C14": {"frag"},
+                          "C11": {"smp", "sess"}, "C12": {"smp"}, "C14": {"frag"},
                           # the replay counters (C05), the MAC keys recorded / awaiting disclosure (C09), the resend queue (C18)
                           "C05": {"ctrs"}, "C10": {"sess", "ms"}, "C09": {"macs", "pend"}, "C18": {"ms", "rsq", "rsf"}}.get(pid, set())
 
@@ -623,6 +623,11 @@ def c11(ctx):
                         maxsched=300 if q else 4000)
     ctx.export_validate("c11x-v2", dict(PolA=1, PolB=1, Setup="ake", MaxFlight=2, MaxSMPStart=1, MaxSMPAnswer=1, Secrets=[1, 3]), "none", drain=True,
                         maxsched=100 if q else 2000)
+    # SMP in a session that replaced another one (refresh while encrypted): the secret is bound to the new session
+    rp, rprel = STARTS["refresh"]
+    rc = dict(rp, Prelude=rprel, PreludeDrain=True, MaxFlight=2, MaxSend=0, MaxSMPStart=1, MaxSMPAnswer=1, Secrets=[5, 6])
+    ctx.model("c11-refresh", rc, ["SMPSuccessSound", "SMPFailureSound", "SMPNotStuck"], timeout=2400)
+    ctx.export_validate("c11x-refresh", rc, "none", drain=True, maxsched=200 if q else 4000)
     ctx.random_validate("smp", 48 if q else 480, 4 if q else 10)
     ctx.attack_catalogue("relay")
 
@@ -888,6 +893,7 @@ def c13(ctx):
                                per_msg=8 if q else 30, maxsched=40 if q else 300)
     ctx.random_validate("smpdev", 32 if q else 480, 3 if q else 6)
     ctx.random_validate("smpdeg", 32, 1)
+    ctx.random_validate("smptlv", 64, 1)
     ctx.random_validate("randfail", 160 if q else 1600, 90)
     ctx.random_validate("nokeys", 96 if q else 960, 40)
     st = go_check(ctx, ["parsefuzz", "-seed", str(ctx.seed)] + ([] if q else ["-deep"]), "PARSEFUZZ", "FUZZVIOLATION",
